@@ -118,7 +118,7 @@ func safely(o *Oracle, op Op, f func()) {
 			}
 			origin, frames := panicOrigin()
 			if origin != "gods" {
-				fmt.Fprintf(os.Stderr, "HARNESS BUG: panic outside the library during %s: %v\n%s\n%s\n", op, r, strings.Join(frames, "\n"), debug.Stack())
+				fmt.Fprintf(diag, "HARNESS BUG: panic outside the library during %s: %v\n%s\n%s\n", op, r, strings.Join(frames, "\n"), debug.Stack())
 				panic(harnessBug{r})
 			}
 			o.Fail(tag, "panic", "%s panicked: %v\n%s", op, r, strings.Join(frames, "\n"))
@@ -199,11 +199,18 @@ func main() {
 
 	siteHits = make([]int64, simrt.NSites+1)
 	initWorlds()
-	setupProcess(*prop)
+	
 
 	if *replay != "" {
+		if b, err := os.ReadFile(*replay); err == nil {
+			var rp Plan
+			if json.Unmarshal(b, &rp) == nil {
+				setupProcess(rp.Property, "")
+			}
+		}
 		os.Exit(doReplay(*replay))
 	}
+	setupProcess(*prop, *logPath)
 	w := worlds[*prop]
 	if w == nil {
 		fmt.Fprintln(os.Stderr, "unknown property", *prop)
@@ -389,7 +396,7 @@ func doReplay(path string) int {
 		out["signature"] = v.Signature()
 	}
 	jb, _ := json.Marshal(out)
-	fmt.Println(string(jb))
+	fmt.Fprintln(resultOut, string(jb))
 	if v == nil {
 		return 0
 	}
